@@ -30,6 +30,10 @@ def subchecks(tier):
     prof.weights.update({"ps": 0.0, "inf": 0.1, "slotted": 0.25, "slot_capacitated": 0.7, "slot_preempt": 0.7, "schedule": 0.45, "discipline": 0.5})
     return [system_subcheck("lattice", prof, lambda spec: [WorkConservation()], nontrivial, classes=classes,
                             n={"quick": 9600, "thorough": 50000}, rule="finite-server lattice; idle-server-vs-waiting monitor + coverage audit"),
+            system_subcheck("slot_feed", common.slot_feed_profile("C05"), lambda spec: [WorkConservation()],
+                            lambda a, spec, res: a.get("rec_interrupted_service", 0) >= 1 and a.get("ev_shift_change", 0) >= 2, classes=classes,
+                            n={"quick": 3600, "thorough": 20000},
+                            rule="capacitated pre-emptive slotted node feeding a scheduled node (customers arrive after an interruption and resumption); same monitor"),
             system_subcheck("sched_blocked", common.region_profile("C05"), lambda spec: [WorkConservation()],
                             lambda a, spec, res: a.get("rec_interrupted_service", 0) >= 1 and a.get("blocked_records", 0) >= 1, classes=classes,
                             n={"quick": 4800, "thorough": 30000}, rule="pre-emptive schedules x blocking region (heavy load, grid times); same monitor")]
